@@ -1229,7 +1229,7 @@ class UserSessionManager(Service, discriminator="user-session-manager"):
 
         def _remote_login(request: RequestFormat, context: Dict) -> RequestResponse:
             """Request should take the form [username, password, remote_ip_address]."""
-            username, password, remote_ip_address = request
+            username, password, remote_ip_address = request[0], request[1], request[2]
             # remote_login returns the session id (or None), not a bool
             response = RequestResponse.from_bool(self.remote_login(username, password, remote_ip_address) is not None)
             response.data = {"remote_hostname": self.parent.config.hostname, "username": username}
